@@ -76,6 +76,8 @@ REQUIRED = [
     'dhcp_DEFAULT_LEASE_DURATION',
     'slaac_MAX_RTR_SOLICITATIONS', 'slaac_RTR_SOLICITATION_INTERVAL',
     'wipv4_MIN_MTU', 'wipv6_MIN_MTU',
+    'wipv4_HEADER_LEN', 'phy_IPV4_FRAGMENT_PAYLOAD_ALIGNMENT',
+    'cfg_FRAGMENTATION_BUFFER_SIZE', 'cfg_REASSEMBLY_BUFFER_COUNT',
 ]
 
 INT = r'(?:0x[0-9a-fA-F_]+|0b[01_]+|[0-9][0-9_]*)'
